@@ -92,12 +92,29 @@ def run(tier, seed, replay):
               what=f"main() assigns {writes}: a file's verdict no longer comes from its own analysis")
     loop = kept[0]
     calls = [_ast.unparse(x.func) for x in _ast.walk(loop) if isinstance(x, _ast.Call)]
-    uncond = []
-    for st_ in loop.body:
-        if isinstance(st_, _ast.Try):
-            for b in st_.body:
-                uncond += [_ast.unparse(x.func) for x in _ast.walk(b) if isinstance(x, _ast.Call)] \
-                    if not isinstance(b, (_ast.If, _ast.While, _ast.For)) else []
+    # calls made on every path through the loop body (statements of the body and of its try
+    # blocks that are not under an if / loop), seen through helper functions defined in main()
+    # or at module level
+    helpers = {d.name: d for d in _ast.walk(chk.repo.module(CLI.MAIN.split(":")[0]).tree) if isinstance(d, _ast.FunctionDef)}
+
+    def uncond_calls(stmts, depth=0):
+        out = []
+        for b in stmts:
+            if isinstance(b, _ast.Try):
+                out += uncond_calls(b.body, depth)
+                continue
+            if isinstance(b, (_ast.If, _ast.While, _ast.For, _ast.FunctionDef, _ast.With)):
+                if isinstance(b, _ast.With):
+                    out += uncond_calls(b.body, depth)
+                continue
+            for x in _ast.walk(b):
+                if isinstance(x, _ast.Call):
+                    nm = _ast.unparse(x.func)
+                    out.append(nm)
+                    if nm in helpers and nm != "main" and depth < 3:
+                        out += uncond_calls(helpers[nm].body, depth + 1)
+        return out
+    uncond = uncond_calls(loop.body)
     need = ["Lexer", "Context", "registry.run"]
     miss = [n for n in need if n not in uncond]
     chk.frame("main.every_file_goes_through_the_pipeline", not miss, {"unconditional_calls": uncond, "missing": miss},
